@@ -2,7 +2,7 @@
    byte and spec_float stay extracted inductives. *)
 From Coq Require Import ExtrOcamlBasic.
 From Coq Require Import List ZArith Strings.Byte Floats.SpecFloat.
-From Ugo Require Import Base.Res Base.GoInt Base.GoFloat Value.PValue Value.Ops Conv.GoValue Skel.Skel Skel.SkelDecl Byte.Instr Byte.V1Conv Codec.Varint Codec.Obj Comp.SymTab Comp.Fold Byte.Wf VM.CallBinding Comp.ModStore Comp.ImportPath Pos.LineTable Json.Json Builtin.Adapter Builtin.SizeGuard Share.Share Share.ShareCheck Abort.Abort Abort.AbortDrive Sem.Sem ExprComp.ExprComp ExprComp.StmtComp.
+From Ugo Require Import Base.Res Base.GoInt Base.GoFloat Value.PValue Value.Ops Conv.GoValue Skel.Skel Skel.SkelDecl Byte.Instr Byte.V1Conv Codec.Varint Codec.Obj Comp.SymTab Comp.Fold Comp.FoldExpr Byte.Wf VM.CallBinding Comp.ModStore Comp.ImportPath Pos.LineTable Json.Json Builtin.Adapter Builtin.SizeGuard Share.Share Share.ShareCheck Abort.Abort Abort.AbortDrive Sem.Sem ExprComp.ExprComp ExprComp.StmtComp.
 Definition byte_to_N := Byte.to_N.
 Definition byte_of_N := Byte.of_N.
 Extraction "ugomodel.ml"
@@ -27,4 +27,5 @@ Extraction "ugomodel.ml"
   xcompile xceval xmrun xcsize xisize
   scompile sexec ssize wf
   dcompile_program wf_program
-  fi_name fi_fork.
+  fi_name fi_fork
+  fold_ok const_error fold_inconclusive.
